@@ -28,7 +28,7 @@ def _null_cell(kind):
 
 def sym_merge(left, right, how="inner", on=None, left_on=None, right_on=None, left_index=False, right_index=False,
               suffixes=("_x", "_y"), indicator=False, sort=False, **kw):
-    if indicator:
+    if indicator not in (False, True, None) and not isinstance(indicator, str):
         raise Unsupported("merge indicator")
     if isinstance(left, SymSeries):
         left = left.to_frame()
@@ -127,6 +127,12 @@ def sym_merge(left, right, how="inner", on=None, left_on=None, right_on=None, le
         if "b" in kinds and len(kinds) > 1:
             raise Unsupported("bool column made nullable by a join")
         cols.append((lab, Col.from_cells(cells)))
+    if indicator:
+        # pandas' categorical left_only / right_only / both as the codes 1 / 2 / 3
+        lab = indicator if isinstance(indicator, str) else "_merge"
+        if lab in labels:
+            raise StructuralError(f"merge indicator column {lab!r} already exists")
+        cols.append((lab, Col("i", [z3.IntVal(3 if (i is not None and j is not None) else (1 if j is None else 2)) for _, i, j in rows])))
     valid = [v for v, _, _ in rows]
     prov = [(left.prov[i] if i is not None else None, right.prov[j] if j is not None else None) for _, i, j in rows]
     if both_index:
